@@ -53,6 +53,7 @@ fn reps(class: &str) -> Vec<Vec<u8>> {
         "invalid_utf8" => vec![b"caf\xe9".to_vec(), b"\xff\xfe".to_vec()],
         "hash" => vec![s("# x"), s("#!shebang")],
         "fence_indent" => vec![s("   ```bash"), s(" ```"), s("  ````")],
+        "mid_mod" => vec![s("value (escaped) here"), s("a (no-eol) b"), s("x (glob) y"), s("p (?) q")],
         other => tool_error(&format!("unknown line class {other}")),
     }
 }
@@ -95,7 +96,25 @@ fn one(id: u64, v: &Value, seed: u64) -> Value {
     };
     // the test case that the generation starts from
     let generated: Result<anyhow::Result<String>, String> = guarded(|| {
-        if path == "create" {
+        if path == "update_pass" || path == "convert_pass" {
+            // the passing test to start from is the one `create` writes in the source format
+            let src_md = (fmt == "md") != (path == "convert_pass");
+            let (sfmt, scfg) = if src_md { (ParserType::Markdown, TestCaseConfig::default_markdown()) } else { (ParserType::Cram, TestCaseConfig::default_cram()) };
+            let tc0 = TestCase { title: "A Title".into(), shell_expression: command.clone(), expectations: vec![], exit_code: None, line_number: 0, config: scfg };
+            let r0 = tc0.validate(&output);
+            let oc0 = Outcome { location: None, output: output.clone(), testcase: tc0, format: sfmt, escaping: escaper.clone(), result: r0 };
+            let doc = if src_md { MarkdownTestCaseGenerator::default().generate_testcases(&[&oc0]) } else { CramTestCaseGenerator::default().generate_testcases(&[&oc0]) }
+                .map_err(|e| anyhow::anyhow!("harness-skip: create failed: {e:#}"))?;
+            let tests = if src_md { md_parser().parse(&doc).map(|x| x.1) } else { cram_parser().parse(&doc).map(|x| x.1) }
+                .map_err(|e| anyhow::anyhow!("harness-skip: created document does not parse: {e:#}"))?;
+            if tests.len() != 1 || tests[0].shell_expression != command || tests[0].validate(&output).is_err() {
+                anyhow::bail!("harness-skip: the created test does not pass (the create path reports that)");
+            }
+            let oc = Outcome { location: None, output: output.clone(), testcase: tests[0].clone(), format: sfmt, escaping: escaper.clone(), result: Ok(()) };
+            if path == "convert_pass" {
+                if fmt == "md" { MarkdownTestCaseGenerator::default().generate_testcases(&[&oc]) } else { CramTestCaseGenerator::default().generate_testcases(&[&oc]) }
+            } else if fmt == "md" { MarkdownUpdateGenerator::default().generate_update(&doc, &[&oc]) } else { CramUpdateGenerator::default().generate_update(&doc, &[&oc]) }
+        } else if path == "create" {
             let tc = TestCase { title: "A Title".into(), shell_expression: command.clone(), expectations: vec![], exit_code: None, line_number: 0, config: config.clone() };
             let result = tc.validate(&output);
             let oc = Outcome { location: None, output: output.clone(), testcase: tc, format, escaping: escaper.clone(), result };
@@ -161,7 +180,8 @@ fn one(id: u64, v: &Value, seed: u64) -> Value {
             }
         }
     }
-    json!({"ev": "Load", "id": id, "lines": v["lines"], "lastEol": last_eol, "code": code, "fmt": fmt, "esc": esc_name, "path": path,
+    let skipped = obs["detail"].as_str().map(|d| d.contains("harness-skip")).unwrap_or(false);
+    json!({"ev": if skipped { "Skip" } else { "Load" }, "id": id, "lines": v["lines"], "lastEol": last_eol, "code": code, "fmt": fmt, "esc": esc_name, "path": path,
            "output": String::from_utf8_lossy(&out), "output_bytes": bytes_to_json(&out), "command": command, "obs": obs})
 }
 
